@@ -39,7 +39,10 @@ class TaggedFieldType(FieldType):
     def make_desired_cell_ch_chunks(self, value, fmt_modifier, field_palette):
         chunks, align = super().make_desired_cell_ch_chunks(value, None, field_palette)
         if fmt_modifier is not None:
-            chunks = chunks + [field_palette.text("~" + fmt_modifier)]
+            # (for the modifiers 'x' and 'u' the mark has the look of numbers: in colour the cell has two pieces of
+            # different looks, without colours they melt into one)
+            look = field_palette.number if fmt_modifier in ('x', 'u') and hasattr(field_palette, 'number') else field_palette.text
+            chunks = chunks + [look("~" + fmt_modifier)]
         if fmt_modifier in ('x', 'u'):
             # (the cell is handed over as ONE text object - pieces of the same look melt into one run of characters,
             # so the text has other pieces with colours than without)
